@@ -127,7 +127,8 @@ def _attack(col, ctx, np, shard, only):
             sf_all = SF()
             full = sf_all(**{tag: data})                                  # (N, guesses, words)
             inter = full[np.arange(N)[:, None], true[None, :], np.arange(nwords)[None, :]]       # intermediate value under the TRUE (reference) round key
-            mo = {'hw': scared.HammingWeight(), 'bit': scared.Monobit(0), 'value': scared.Value()}[model]
+            model_k = 'bit' if (att == 'mia' and ki % 2 == 1) else model          # a 1-bit model bounds the mutual information by ln 2 < 1 nat
+            mo = {'hw': scared.HammingWeight(), 'bit': scared.Monobit(0), 'value': scared.Value()}[model_k]
             leak = mo(inter).astype('float64')
             noise = np.round(rng_for(seed, 'c17-noise', cipher).uniform(-0.125, 0.125, (N, nwords + 2)), 4)     # bounded, seeded, independent per sample
             traces = np.concatenate([leak, np.zeros((N, 2))], axis=1) + noise
@@ -180,11 +181,14 @@ def _run_attack(np, scared, att, SF, mo, model, ths, words, cipher, nguess, tag,
         elif att == 'dpa': a = scared.DPAAttack(selection_function=sf, model=mo, discriminant=scared.maxabs)
         else:
             parts = list(range(9)) if cipher == 'aes' else list(range(5))
+            if isinstance(mo, scared.Monobit): parts = [0, 1]
             C = {'anova': scared.ANOVAAttack, 'nicv': scared.NICVAttack, 'snr': scared.SNRAttack, 'mia': scared.MIAAttack}[att]
             kw = dict(selection_function=sf, model=mo, discriminant=scared.nanmax, partitions=parts)
             if att == 'mia':
                 hi = float(max(parts)) + 0.5
                 kw['bin_edges'] = np.linspace(-0.5, hi, int(hi + 0.5) + 1)
+                if N % 3 != 0 or True:
+                    kw['precision'] = ('uint32', 'float32')[_run_attack.n % 2]; _run_attack.n += 1     # MIA counts in an integer dtype by default: both kinds of precision
             a = C(**kw)
         a.run(cont)
         sc = np.asarray(a.scores)                                          # (guesses, words)
@@ -199,6 +203,9 @@ def _run_attack(np, scared, att, SF, mo, model, ths, words, cipher, nguess, tag,
         t.build(); t.run(cont)
         out.append(np.asarray(t.scores).reshape(-1))
     return out, list(words)
+
+
+_run_attack.n = 0
 
 
 def _known(tag, w, ths, inter):
